@@ -155,6 +155,9 @@ PROPS["C19"] = e1("TestC19", "cases drawn by rapid (GenC19): three candidate roo
                   "4-30 ops: mkdir one level (followed by sync), rename of an inner directory within its tree (followed by sync; in 35% of cases inside bursts instead, a third of those twice in a row on the same directory), rmdir, file create/write/chmod/unlink/move at any depth in bursts (25% plugged), "
                   "Remove of one of several roots, a root removed and added again with events of its tree pending; 15% of cases are long (30-70 ops) and move-heavy. "
                   "Oracle: shadow watch on every covered directory + the harness's own true-path bookkeeping. non-trivial = an inner directory rename or a root removal happened and >=2 events were delivered; distinct = skeleton")
+_parts("C19", dict(pkg="props", test="TestC19RenameRace", single=True))
+PROPS["C19"]["rule"] += ("; plus a rename race: four goroutines create uniquely named files inside a covered directory while it is renamed back and forth 1500 (quick) / 12000 (thorough) times; "
+                         "every file must be reported by exactly one Create carrying its base name (the path is not judged there: it depends on how far the reader has got)")
 MANIFEST_TEXT["C19"] = _e1("Exploration of the unreleased recursive mode (enabled through the verif hook): expected Name = root spelling + true current relative path, kept by the harness through renames; coverage of new directories from their Create on; Remove(root) silences exactly that tree. mkdir -p bursts, cross-boundary moves and root renames are excluded as in the property.")
 
 
